@@ -8,6 +8,14 @@ NOTE_COMMON = ("Trusted base: go/packages + go/types + go/ssa of golang.org/x/to
                "so a large refactoring can raise an alarm although behaviour is preserved.")
 
 claimed = {
+ "C12": dict(
+   text="Decides only necessary conditions of delivery independence at the places where the library touches an io.Reader: byte counts of direct Reads are accounted before the error is acted on; refill reports no error while it delivered data and the first error is sticky; fixed-size reads use io.ReadFull; the seekable branch of the first-byte sniffer seeks back to the saved offset before every successful return and the buffered branch replays its bytes once; the per-run scanner is popped by a deferred function. Equality of results across delivery schedules and across split Execute calls is NOT decided (run-time state sequences).",
+   technique="static analysis: go/ssa def-use and dominance rules at every io.Reader call site",
+   ref="DESIGN.md §5 C12"),
+ "C13": dict(
+   text="Decides a structural necessary condition for every call site that can yield an I/O-derived error (direct io calls and, transitively, module functions returning such errors): the error is not discarded, has a propagating use, and after `err != nil` no path rejoins normal flow without returning it except on an io.EOF/ErrUnexpectedEOF edge; discarded scanner errors are admitted only under the sticky-error rule, which is checked; bufio.Scanner loops are followed by Err(); the token loop ends normally only on io.EOF; fonts/CMaps are registered only by definefont/defineresource/endcmap, last. Does not run fault injection.",
+   technique="static analysis: interprocedural I/O-error taint over go/ssa (fixpoint on return values), per-call-site flow rule with EOF-edge exemption, who-may-write rules for the registration sites, parsed font template",
+   ref="DESIGN.md §5 C13"),
  "C03": dict(
    text="Decides structural necessary conditions of the control-flow clauses on the SSA form: loop operators compare the body's result with the exit signal, leave the loop and return nil, propagate other errors; exit/stop are intercepted nowhere else and Execute maps them to invalidexit/nil; body elements (nested call and tail jump) are dispatched with execute=false and looked-up values with true; dispatch happens only outside an open procedure body; load/where scan the dictionary stack top-down, first hit wins; bind resolves through the same lookup; if/ifelse run exactly the prescribed operand on opposite edges of the boolean test; per-iteration pushes of for/forall/loop/repeat, repeat's trip count, for's termination predicate (decision table) and control-variable update. Does not decide values or iteration counts of nested programs.",
    technique="static analysis: go/ssa def-use and dominance rules per registered operator, phi-edge inspection of the dispatch loop, decision-table extraction of comparison-only predicates",
